@@ -142,11 +142,27 @@ def settings_context(rng, spec):
 def pair_differ(rec, rng, cid):
     spec, idnt = base_curve(rng)
     ctx = settings_context(rng, spec)
-    kind = ["key"] * 5 + ["param", "param", "data"]
+    kind = ["key"] * 10 + ["param"] * 4 + ["data"] * 2 + ["plateau-upper"]
     kind = kind[int(rng.integers(len(kind)))]
     case = {"id": cid, "class": "must-differ", "kind": kind, "curve": spec,
             "context": ctx}
-    if kind == "key":
+    if kind == "plateau-upper":
+        # plateau search on: the upper bound limits every fit of the scan,
+        # also when the lower bound happens to equal it
+        ctx.pop("range_type", None)
+        ctx.update(optimal_fit_edelta=True, optimal_fit_num_samples=9)
+        u = float(rng.uniform(-3, 3) * 1e-6)
+        v = float(rng.uniform(-3, 3) * 1e-6)
+        if u == v:
+            return
+        a = [[u, u], [float(rng.uniform(-3, 3) * 1e-6), u]][
+            int(rng.integers(2))]
+        b = [[v, v], [a[0], v]][int(rng.integers(2))]
+        case.update(key="range_x", a=a, b=b)
+        ha = H(idnt, **dict(ctx, range_x=a))
+        hb = H(idnt, **dict(ctx, range_x=b))
+        tag = "setting/range_x-upper-bound-plateau-on"
+    elif kind == "key":
         key = DIFF_KEYS[int(rng.integers(len(DIFF_KEYS)))]
         if key in ("optimal_fit_edelta", "range_type"):
             ctx.pop("optimal_fit_edelta", None)
@@ -271,6 +287,12 @@ def pair_equal(rec, rng, cid):
             d["optimal_fit_num_samples"] = 9
         a["range_x"] = [float(-rng.uniform(.1, 3) * 1e-6), ctx["range_x"][1]]
         b["range_x"] = [float(-rng.uniform(.1, 3) * 1e-6), ctx["range_x"][1]]
+        if rng.random() < .4:
+            # (a lower bound that happens to equal the upper one is a lower
+            #  bound like any other)
+            up = float(rng.uniform(-3, 3) * 1e-6)
+            a["range_x"] = [up, up]
+            b["range_x"] = [float(rng.uniform(-3, 3) * 1e-6), up]
     elif kind == "params-copy":
         p = gen.nanite_params(spec["model"])
         p["contact_point"].value = 1.5e-7
